@@ -422,7 +422,8 @@ static void c04_c02_case(const TypeCtx& c, uint64_t ci, bool is_c02) {
         if (d.consumed > m.bytes.size()) vv2(fmt("C02:overconsumed:%s:%s", rname(rk), tkey(dc).c_str()), fmt("reader position %zu beyond the %zu input bytes", d.consumed, m.bytes.size()), det);
         // post-conditions: inspect, re-read a valid encoding into the same object, destroy
         if (!d.ok && vv_valid && !(dc.t->flags & F_AMBIGUOUS)) {
-          (void)dst.val();
+          lb_inspected_out_of_range() = false; (void)dst.val();
+          if (lb_inspected_out_of_range()) vv2(fmt("C02:destination-invalid-after-failed-read:%s", tkey(dc).c_str()), "a failed read left a logical buffer whose size member exceeds its array: inspecting elements [0, size) leaves the object", det);
           DecodeOutcome d2 = decode_with(dc, (dc.t->flags & F_HANDLE) ? R_LOG : R_PEDANTIC, ev.out, SIZE_MAX, dst, &rs, 0);
           if (!d2.ok) vv2(fmt("C02:reread-failed:%s", tkey(dc).c_str()), fmt("a valid encoding no longer reads into the object left by a failed read ('%s')", errname(d2.err)), det);
           else if (!(dc.t->flags & F_AMBIGUOUS) && canoned(dc.sch, dst.val()) != vv_expect) vv2(fmt("C02:reread-differs:%s", tkey(dc).c_str()), "object left by a failed read decodes a valid encoding to a different value than a fresh object", det);
